@@ -123,6 +123,19 @@ Theorem C17_handles_released_old_refuted_witness :
 Proof. exact mll_refuted_failed_open. Qed.
 Print Assumptions C17_handles_released_old_refuted_witness.
 
+(* HDF5: whatever identifiers of the file are still open -- groups from ordinary use, a dataset and a group from a read that failed
+   half-way, identifiers of any kind abandoned by anyone -- the forced close of ADFH_Database_Close as written (every kind counted
+   and listed by its own constant) closes all of them, so H5Fclose gives the descriptor back.  PARTIAL: libhdf5 is not modelled;
+   the tie is the identifier census per kind before and after every close (checks/C17.py, "h5 census") *)
+Theorem C17_forced_close_releases_every_kind : forall s,
+  file_released (forced_close passes_cur s) = true /\ forall k, id_count (forced_close passes_cur s) k = 0.
+Proof. exact forced_close_releases. Qed.
+Print Assumptions C17_forced_close_releases_every_kind.
+
+Theorem C17_h5_session_releases : forall ops, file_released (h5session ops) = true.
+Proof. exact h5session_releases. Qed.
+Print Assumptions C17_h5_session_releases.
+
 (* ================================================================================ non-vacuity *)
 (* the witness world W1 is acyclic, and the current model closes the witness session cleanly *)
 Example C17_w1_acyclic : acyclic w1 (fun n => match n with 2 => 2 | 0 => 1 | _ => 0 end).
@@ -148,3 +161,11 @@ Example C17_mll_example :
   exists m, mrun MCur mll_init [] [MOpen OSuccess; MOpen OLateFail; MOpen OSuccess; MClose 1 true; MClose 3 true] = (m, []) /\
             n_open m = 0 /\ held m = [] /\ files m = [] /\ foffset m = 3.
 Proof. exact mll_fixed_example. Qed.
+
+(* the pairing of "kind counted" and "kind listed" matters: with the dataset step counting datatypes, the dataset left by a failed
+   read stays, and with it the file *)
+Example C17_forced_close_pairing_example :
+  let ps := [(IType, IType); (IType, IDset); (IAttr, IAttr); (IGroup, IGroup)] in
+  forced_close ps (fold_left h5step [HNode; HFailedRead] no_ids) = mkids 0 1 0 0 /\
+  file_released (forced_close ps (fold_left h5step [HNode; HFailedRead] no_ids)) = false.
+Proof. exact forced_close_pairing_example. Qed.
